@@ -121,9 +121,15 @@ func errCode(err error) string {
 	return err.Error()
 }
 
-// c27Disagree returns the first (variant, kind, subject) on which a variant differs
-// from the reference.
-func c27Disagree(ref *regexp.Regexp, vars []c27Variant, subjects []string) (v *c27Variant, kind, subject, detail string, matched, unmatched int) {
+// c27Finding is one variant's disagreement with the reference.
+type c27Finding struct {
+	kind, subject, detail string
+}
+
+// c27Disagree compares every variant with the reference on every subject. Per
+// variant the first "language" disagreement (subject matched by one, not by the
+// other) wins over an "extent" disagreement (both match, positions differ).
+func c27Disagree(ref *regexp.Regexp, vars []c27Variant, subjects []string) (found map[string]c27Finding, matched, unmatched int) {
 	for _, s := range subjects {
 		want := ref.FindAllStringIndex(s, -1)
 		if want == nil {
@@ -131,18 +137,28 @@ func c27Disagree(ref *regexp.Regexp, vars []c27Variant, subjects []string) (v *c
 		} else {
 			matched++
 		}
-		if v != nil {
-			continue
-		}
 		for i := range vars {
+			name := vars[i].name
+			if f, ok := found[name]; ok && f.kind == "language" {
+				continue
+			}
 			got := vars[i].re.FindAllStringIndex(s, -1)
-			if (want == nil) != (got == nil) {
-				return &vars[i], "language", s, fmt.Sprintf("reference matches=%v, variant matches=%v", want != nil, got != nil), matched, unmatched
+			var f c27Finding
+			switch {
+			case (want == nil) != (got == nil):
+				f = c27Finding{"language", s, fmt.Sprintf("reference matches=%v, variant matches=%v", want != nil, got != nil)}
+			case fmt.Sprint(want) != fmt.Sprint(got):
+				if _, ok := found[name]; ok {
+					continue
+				}
+				f = c27Finding{"extent", s, fmt.Sprintf("reference matches at %v, variant at %v", want, got)}
+			default:
+				continue
 			}
-			if fmt.Sprint(want) != fmt.Sprint(got) {
-				v, kind, subject, detail = &vars[i], "extent", s, fmt.Sprintf("reference %v, variant %v", want, got)
-				break
+			if found == nil {
+				found = map[string]c27Finding{}
 			}
+			found[name] = f
 		}
 	}
 	return
@@ -169,7 +185,7 @@ func c27One(rec *kit.Rec, src string, feats map[string]bool, nSub int, subSeed u
 		return
 	}
 	subjects := rxSubjects(kit.NewRand(subSeed, 1), tree, nSub)
-	v, kind, subject, det, matched, unmatched := c27Disagree(ref, vars, subjects)
+	found, matched, unmatched := c27Disagree(ref, vars, subjects)
 	rec.Count("subjects", int64(len(subjects)))
 	rec.Count("subjects_matched", int64(matched))
 	if ops["Capture"] {
@@ -178,105 +194,276 @@ func c27One(rec *kit.Rec, src string, feats map[string]bool, nSub int, subSeed u
 	if vars[0].src != "(?m)"+src {
 		rec.Count("printout_differs_from_source", 1)
 	}
-	if vars[2].src != vars[1].src {
+	if vars[2].src != tree.String() {
 		rec.Count("optimiser_changed_tree", 1)
 	}
 	rec.Case(src, matched > 0 && unmatched > 0, func() any {
 		return map[string]any{"regexp": src, "printed": vars[1].src, "optimized_printed": vars[3].src, "subjects": len(subjects), "matched": matched, "example_subject": subjects[len(subjects)-1]}
 	})
-	if v == nil {
-		return
-	}
-	// shrink: replace the regexp by sub-expressions (rendered by the standard
-	// printer) while the same variant still disagrees in the same way
-	name := v.name
-	minSrc, minSubj, minDet := src, subject, det
-	fails := func(cand string) (bool, string, string) {
-		cref, ctree, cvars, cskip, cprob, _ := c27Compile(cand)
-		if cskip != "" || cprob != "" {
-			return false, "", ""
+	// one report per variant, most basic variant first (a printer defect also shows
+	// in optimize+print; an optimiser defect also shows there)
+	done := map[string]bool{}
+	for _, v := range vars {
+		f, ok := found[v.name]
+		if !ok {
+			continue
 		}
-		subs := append(rxSubjects(kit.NewRand(subSeed, 2), ctree, 4*nSub), subjects...)
-		cv, ck, cs, cd, _, _ := c27Disagree(cref, cvars, subs)
-		// the first disagreeing variant may be another one; look for ours
-		if cv != nil && (cv.name != name || ck != kind) {
-			for i := range cvars {
-				if cvars[i].name == name {
-					cv, ck, cs, cd, _, _ = c27Disagree(cref, cvars[i:i+1], subs)
-				}
-			}
+		if (v.name == "print-perlflags" || v.name == "optimize+print") && len(done) > 0 {
+			continue // already explained by the simpler variant
 		}
-		return cv != nil && cv.name == name && ck == kind, cs, cd
+		done[v.name] = true
+		c27Report(rec, src, v.name, f, subjects, nSub, subSeed)
 	}
-	for budget, changed := 60, true; changed && budget > 0; {
+}
+
+// c27Fails evaluates cand and says whether variant name still disagrees.
+func c27Fails(cand, name string, extra []string, nSub int, subSeed uint64) (c27Finding, bool) {
+	cref, ctree, cvars, cskip, cprob, _ := c27Compile(cand)
+	if cskip != "" || cprob != "" {
+		return c27Finding{}, false
+	}
+	subs := append(rxSubjects(kit.NewRand(subSeed, 2), ctree, 6*nSub), extra...)
+	found, _, _ := c27Disagree(cref, cvars, subs)
+	f, ok := found[name]
+	return f, ok
+}
+
+func c27Report(rec *kit.Rec, src, name string, f c27Finding, subjects []string, nSub int, subSeed uint64) {
+	// shrink the regexp: one structural edit at a time (rendered by the standard
+	// printer) while the same variant still disagrees
+	minSrc, minF := src, f
+	if f2, ok := c27Fails(src, name, subjects, nSub, subSeed); ok {
+		minF = f2
+	}
+	for budget, changed := 600, true; changed && budget > 0; {
 		changed = false
 		mt, err := syntax.Parse(minSrc, queryRxFlags)
 		if err != nil {
 			break
 		}
 		for _, cand := range c27ShrinkCands(mt) {
-			budget--
-			if budget <= 0 {
+			if budget--; budget <= 0 {
 				break
 			}
-			if len(cand) >= len(minSrc) {
+			if len(cand) > len(minSrc) || (len(cand) == len(minSrc) && cand >= minSrc) {
 				continue
 			}
-			if ok, cs, cd := fails(cand); ok {
-				minSrc, minSubj, minDet = cand, cs, cd
+			if f2, ok := c27Fails(cand, name, append([]string{minF.subject}, subjects...), nSub, subSeed); ok {
+				minSrc, minF = cand, f2
 				changed = true
 				break
 			}
 		}
 	}
+	// shrink the subject
+	mref, _, mvars, _, _, _ := c27Compile(minSrc)
+	var mv []c27Variant
+	for _, v := range mvars {
+		if v.name == name {
+			mv = append(mv, v)
+		}
+	}
+	if mref != nil && len(mv) == 1 {
+		for changed := true; changed; {
+			changed = false
+			rs := []rune(minF.subject)
+			for i := range rs {
+				cand := string(append(append([]rune{}, rs[:i]...), rs[i+1:]...))
+				if fd, _, _ := c27Disagree(mref, mv, []string{cand}); fd != nil {
+					if g := fd[name]; g.kind == "language" || minF.kind != "language" {
+						minF = g
+						changed = true
+						break
+					}
+				}
+			}
+		}
+	}
 	mt, _ := syntax.Parse(minSrc, queryRxFlags)
 	mops := map[string]bool{}
-	rxOps(mt, mops)
+	if mt != nil {
+		rxOps(mt, mops)
+	}
+	delete(mops, "Concat") // structural glue, not a feature
 	var ol []string
 	for o := range mops {
 		ol = append(ol, o)
 	}
 	sort.Strings(ol)
-	_, _, mvars, _, _, _ := c27Compile(minSrc)
 	forms := map[string]string{}
-	for _, mv := range mvars {
-		forms[mv.name] = mv.src
+	for _, v := range mvars {
+		forms[v.name] = v.src
 	}
-	rec.Violation(name+"/"+kind+"/"+strings.Join(ol, ","),
-		fmt.Sprintf("regexp %q (query flags) and its %s form %q differ on subject %q: %s", minSrc, name, forms[name], minSubj, minDet),
-		map[string]any{"regexp": minSrc, "variant": name, "variant_source": forms[name], "all_forms": forms, "subject": minSubj, "detail": minDet,
-			"original_regexp": src, "original_subject": subject, "original_detail": det, "flags": "ClassNL|PerlX|UnicodeGroups; reference = regexp.Compile(\"(?m)\"+regexp)"})
+	class := strings.Join(ol, ",")
+	if mt != nil && c27GoFoldFactor(mt) {
+		// one stable class for the one root cause we know: see c27GoFoldFactor
+		class = "go-stdlib-factor-ignores-foldcase"
+	}
+	rec.Violation(name+"/"+minF.kind+"/"+class,
+		fmt.Sprintf("regexp %q (query flags) and its %s form %q differ on subject %q: %s", minSrc, name, forms[name], minF.subject, minF.detail),
+		map[string]any{"regexp": minSrc, "variant": name, "variant_source": forms[name], "all_forms": forms, "subject": minF.subject, "detail": minF.detail,
+			"original_regexp": src, "original_subject": f.subject, "original_detail": f.detail, "flags": "ClassNL|PerlX|UnicodeGroups; reference = regexp.Compile(\"(?m)\"+regexp)"})
 }
 
-// c27ShrinkCands: sources of smaller regexps derived from tree t: every proper
-// sub-expression, and t with one child of a concat/alternate removed.
+// c27GoFoldFactor recognises the shape that trips a defect of regexp/syntax in the
+// Go toolchain pinned by go.mod (1.25): when an alternation is parsed, common
+// single-rune prefixes are factored with Regexp.Equal, which ignores FoldCase for
+// literals, so "K.|(?i:K)" becomes "K(?:.|)" and loses the case-insensitive branch
+// (fixed in Go 1.26). The shape: after removing captures and simplifying (what
+// zoekt's optimiser does before the expression is printed and parsed again), two
+// branches of one alternation start with the same rune, one folded and one not.
+func c27GoFoldFactor(t *syntax.Regexp) bool {
+	var strip func(x *syntax.Regexp) *syntax.Regexp
+	strip = func(x *syntax.Regexp) *syntax.Regexp {
+		for x.Op == syntax.OpCapture {
+			x = x.Sub[0]
+		}
+		c := *x
+		c.Sub = make([]*syntax.Regexp, len(x.Sub))
+		for i, s := range x.Sub {
+			c.Sub[i] = strip(s)
+		}
+		return &c
+	}
+	var lead func(x *syntax.Regexp) (rune, bool, bool)
+	lead = func(x *syntax.Regexp) (rune, bool, bool) {
+		switch x.Op {
+		case syntax.OpConcat:
+			for _, s := range x.Sub {
+				if s.Op == syntax.OpEmptyMatch {
+					continue
+				}
+				return lead(s)
+			}
+		case syntax.OpLiteral:
+			if len(x.Rune) > 0 {
+				return x.Rune[0], x.Flags&syntax.FoldCase != 0, true
+			}
+		}
+		return 0, false, false
+	}
+	var walk func(x *syntax.Regexp) bool
+	walk = func(x *syntax.Regexp) bool {
+		if x.Op == syntax.OpAlternate {
+			seen := map[rune]bool{} // rune -> fold flag of the first branch starting with it
+			for _, s := range x.Sub {
+				if r, fold, ok := lead(s); ok {
+					if f0, dup := seen[r]; dup && f0 != fold {
+						return true
+					}
+					if _, dup := seen[r]; !dup {
+						seen[r] = fold
+					}
+				}
+			}
+		}
+		for _, s := range x.Sub {
+			if walk(s) {
+				return true
+			}
+		}
+		return false
+	}
+	return walk(strip(t).Simplify())
+}
+
+func cloneRx(t *syntax.Regexp) *syntax.Regexp {
+	c := *t
+	c.Rune = append([]rune(nil), t.Rune...)
+	c.Sub = make([]*syntax.Regexp, len(t.Sub))
+	for i, s := range t.Sub {
+		c.Sub[i] = cloneRx(s)
+	}
+	return &c
+}
+
+// c27ShrinkCands: sources of smaller regexps obtained from t by one edit at any
+// depth: a node replaced by one of its children, one child of a concatenation /
+// alternation dropped, a literal cut to one rune, a class replaced by its first
+// rune, a repeat replaced by its operand; plus every proper sub-expression alone.
 func c27ShrinkCands(t *syntax.Regexp) []string {
 	var out []string
 	seen := map[string]bool{}
-	add := func(s string) {
+	add := func(x *syntax.Regexp) {
+		s := x.String()
 		if !seen[s] {
 			seen[s] = true
 			out = append(out, s)
 		}
 	}
-	var subs func(x *syntax.Regexp)
-	subs = func(x *syntax.Regexp) {
-		for _, s := range x.Sub {
-			add(stdString(s))
-			subs(s)
+	// edits: walk the tree; at each node produce edited copies of the whole tree
+	var walk func(path []int)
+	at := func(root *syntax.Regexp, path []int) **syntax.Regexp {
+		p := &root
+		for _, i := range path {
+			p = &(*p).Sub[i]
 		}
+		return p
 	}
-	subs(t)
-	if t.Op == syntax.OpConcat || t.Op == syntax.OpAlternate {
-		for i := range t.Sub {
-			c := *t
-			c.Sub = append(append([]*syntax.Regexp{}, t.Sub[:i]...), t.Sub[i+1:]...)
-			if len(c.Sub) > 0 {
-				add(stdString(&c))
+	walk = func(path []int) {
+		n := *at(t, path)
+		add(n) // the sub-expression alone
+		for i := range n.Sub {
+			c := cloneRx(t)
+			p := at(c, path)
+			*p = (*p).Sub[i]
+			add(c)
+		}
+		if (n.Op == syntax.OpConcat || n.Op == syntax.OpAlternate) && len(n.Sub) > 1 {
+			for i := range n.Sub {
+				c := cloneRx(t)
+				p := *at(c, path)
+				p.Sub = append(p.Sub[:i:i], p.Sub[i+1:]...)
+				add(c)
 			}
 		}
+		if n.Op == syntax.OpLiteral && len(n.Rune) > 1 {
+			for _, keep := range [][2]int{{0, 1}, {len(n.Rune) - 1, len(n.Rune)}, {0, len(n.Rune) / 2}, {len(n.Rune) / 2, len(n.Rune)}} {
+				c := cloneRx(t)
+				p := *at(c, path)
+				p.Rune = p.Rune[keep[0]:keep[1]]
+				add(c)
+			}
+		}
+		if n.Op == syntax.OpCharClass && len(n.Rune) >= 2 {
+			c := cloneRx(t)
+			p := *at(c, path)
+			p.Op = syntax.OpLiteral
+			p.Rune = p.Rune[:1]
+			add(c)
+			if len(n.Rune) > 2 {
+				c := cloneRx(t)
+				p := *at(c, path)
+				p.Rune = p.Rune[:2]
+				add(c)
+			}
+		}
+		if len(path) > 0 && n.Op != syntax.OpAnyCharNotNL && n.Op != syntax.OpEmptyMatch && n.Op != syntax.OpLiteral {
+			// the simplest non-literal atoms in place of a sub-expression
+			for _, op := range []syntax.Op{syntax.OpAnyCharNotNL, syntax.OpEmptyMatch} {
+				c := cloneRx(t)
+				p := at(c, path)
+				*p = &syntax.Regexp{Op: op}
+				add(c)
+			}
+		}
+		if n.Op == syntax.OpLiteral && n.Flags&syntax.FoldCase != 0 {
+			c := cloneRx(t)
+			p := *at(c, path)
+			p.Flags &^= syntax.FoldCase
+			add(c)
+		}
+		for i := range n.Sub {
+			walk(append(append([]int{}, path...), i))
+		}
 	}
-	sort.SliceStable(out, func(i, j int) bool { return len(out[i]) < len(out[j]) })
+	walk(nil)
+	sort.Slice(out, func(i, j int) bool {
+		if len(out[i]) != len(out[j]) {
+			return len(out[i]) < len(out[j])
+		}
+		return out[i] < out[j]
+	})
 	return out
 }
 
